@@ -220,7 +220,10 @@ Fixpoint run_action (L : Z) (a : action) (st : state) {struct a} : outcome state
   | AWithdraw a => withdraw ADV a st
   | ACollect => collect st
   | AFail => Err E_OTHER
-  | ATry s => match run_script L s st with Ok st' => Ok st' | _ => Ok st end
+  (* a sub-message with reply_on_error: an ERROR is caught and rolled back. A contract ABORT (Rust panic) is not an error of the
+     sub-message on the platform the correspondence runs on (cw-multi-test: it unwinds the whole transaction); on the chain an abort
+     is an error like any other, i.e. the script behaves as if the aborting sub-script were AFail - a case the theorems cover *)
+  | ATry s => match run_script L s st with Ok st' => Ok st' | Err _ => Ok st | Panic => Panic end
   end
 with run_script (L : Z) (s : script) (st : state) {struct s} : outcome state :=
   match s with
